@@ -66,6 +66,10 @@ func c05Cases(cfg vlib.Cfg) []*c05Spec {
 			sp = c05SvcLoopCase(r)
 		case i%40 == 9:
 			sp = c05StragglerCase(r)
+		case i%40 == 19 && i < 320:
+			sp = c05SlowChainCase(r)
+		case i%40 == 39 && i < 320:
+			sp = c05NotifyManagesCase(r)
 		case i%40 == 29:
 			sp = c05HookWindowCase(r)
 		case i%40 == 3 || i%40 == 23:
@@ -656,5 +660,48 @@ func c05HookWindowCase(r *vlib.Rand) *c05Spec {
 	mh.Items = append(mh.Items, &c05Item{ID: "mh-w", Kind: kWorker, Settled: true, Wait: "ctx", Cycle: 1})
 	mx := &c05Mod{Name: "mx", Deps: []string{"mh"}, StopDelayMs: vlib.Pick(r, 10, 30), TriggerOnStopped: "ms"}
 	sp.Mods = []*c05Mod{src, mh, mx}
+	return sp
+}
+
+// c05SlowChainCase: a dependency chain of 4-6 modules whose stops are necessarily
+// sequential; at every level work returns only 0.6 x stop timeout after it was cancelled
+// (within the timeout), so the whole Shutdown takes several stop timeouts. Shutdown may
+// only return when all of it has returned.
+func c05SlowChainCase(r *vlib.Rand) *c05Spec {
+	sp := &c05Spec{Class: "slowchain", Limit: 64, StopTimeoutMs: 500, StopVia: "shutdown", Mgmt: r.Chance(1, 3)}
+	n := r.Range(4, 6)
+	for i := 0; i < n; i++ {
+		ms := &c05Mod{Name: fmt.Sprintf("c%d", i), StopDelayMs: vlib.Pick(r, 0, 1, 5)}
+		if i > 0 {
+			ms.Deps = []string{fmt.Sprintf("c%d", i-1)}
+		}
+		k := r.Range(1, 2)
+		for j := 0; j < k; j++ {
+			ms.Items = append(ms.Items, &c05Item{ID: fmt.Sprintf("c%d-i%d", i, j), Kind: vlib.Pick(r, kWorker, kWorkerRun, kSvc, "mt_start_med", "mt_sig_high", kHook),
+				Settled: true, Wait: "ctx", LingerMs: 300 - 40*j, Cycle: 1, DoneCalls: 1, SrcMod: ms.Name})
+		}
+		sp.Mods = append(sp.Mods, ms)
+	}
+	return sp
+}
+
+// c05NotifyManagesCase: module management whose change-notify function calls
+// ManageModules() (the documented way to use it); ma is stopped by a management pass while
+// its items are running, optionally started and stopped again. All of the user's work
+// returns promptly, so the stop has to complete without the stop timeout.
+func c05NotifyManagesCase(r *vlib.Rand) *c05Spec {
+	sp := &c05Spec{Class: "notifymanages", Limit: 64, StopTimeoutMs: c05StopTimeoutMs, Mgmt: true, NotifyManages: true, StopVia: "manage", Disable: []string{"ma"}, Restart: r.Chance(1, 3)}
+	dep := &c05Mod{Name: "m0", StopDelayMs: 0}
+	dep.Items = append(dep.Items, &c05Item{ID: "m0-w", Kind: kWorker, Settled: true, Wait: "ctx", Cycle: 1})
+	ms := &c05Mod{Name: "ma", Deps: []string{"m0"}, StopDelayMs: vlib.Pick(r, 0, 1, 5), StopNil: r.Chance(1, 4)}
+	n := r.Range(1, 4)
+	for j := 0; j < n; j++ {
+		ms.Items = append(ms.Items, &c05Item{ID: fmt.Sprintf("ma-i%d", j), Kind: vlib.Pick(r, kWorker, kWorkerRun, kSvc, "mt_start_med", "mt_run_low", "mt_sig_high"), Settled: true,
+			Wait: "ctx", LingerMs: vlib.Pick(r, 0, 1, 5, 20), Cycle: 1, DoneCalls: 1})
+	}
+	if sp.Restart {
+		ms.Items = append(ms.Items, &c05Item{ID: "ma-c2", Kind: kWorker, Settled: true, Wait: "ctx", LingerMs: 1, Cycle: 2})
+	}
+	sp.Mods = []*c05Mod{ms, dep}
 	return sp
 }
